@@ -428,6 +428,11 @@ class AbsEval(ConstEval):
                 m = base.attrs.get(e.func.attr)
                 if callable(m):
                     return m(*args)
+                if isinstance(m, FuncRef) or (isinstance(m, Opaque) and m.what == "lambda") or (isinstance(m, tuple) and m and m[0] in ("boundfunc", "partial", "getter")):
+                    # a callable kept in an instance attribute (a bound method selected in the constructor, a lambda, a partial)
+                    return self.apply_value(m, args, mod)
+                if e.func.attr in base.attrs and m is not None and not isinstance(m, (int, float, str, bytes, bool, list, dict, tuple, set, bytearray)):
+                    raise NotConstant(f"call of the instance attribute {e.func.attr} ({m!r}) is outside the interpreter's summaries")
                 if base.cls_key is not None:
                     fm = self.M.find_method(base.cls_key, e.func.attr)
                     if fm is not None and fm.kind in ("method", "static", "classmethod"):
